@@ -13,9 +13,9 @@ from .. import core, tlc
 from ..core import Report
 from . import g1
 
-CONFIGS = {"quick": ["GenG1_cfg_q.cfg", "GenG1_syms_q.cfg", "GenG1_cfi_q.cfg"],
-           "thorough": ["GenG1_cfg_t.cfg", "GenG1_syms_t.cfg", "GenG1_fn_q.cfg", "GenG1_cfi_q.cfg", "GenG1_ann_q.cfg"]}
-NCASES = {"quick": 300, "thorough": 3000}
+CONFIGS = {"quick": ["GenG1_cfg_q.cfg", "GenG1_syms_q.cfg", "GenG1_cfi_q.cfg", "GenG1_zero_q.cfg"],
+           "thorough": ["GenG1_cfg_t.cfg", "GenG1_syms_t.cfg", "GenG1_fn_q.cfg", "GenG1_cfi_q.cfg", "GenG1_ann_q.cfg", "GenG1_zero_q.cfg"]}
+NCASES = {"quick": 400, "thorough": 3000}
 SEEDS = {"quick": [0, 1, 7, 4242], "thorough": [0, 1, 2, 3, 5, 7, 11, 13, 17, 19, 23, 4242, 99991, 123456, 31337, 65537]}
 PERMS = {"quick": 2, "thorough": 3}
 
@@ -50,21 +50,27 @@ def run(prop: str, tier: str, replay: str = None) -> int:
             with open(base, "w") as out:
                 out.write(json.dumps(rec["case"]) + "\n")
         else:
-            allc = os.path.join(wd, "all.ndjson")
-            with open(allc, "w") as agg:
-                for cfg in CONFIGS[tier]:
+            # every configuration gets an equal share of the cases
+            cfgs = CONFIGS[tier]
+            with open(base, "w") as agg:
+                for ci, cfg in enumerate(cfgs):
                     part = os.path.join(wd, "part.ndjson")
                     res = tlc.generate("GenG1.tla", cfg, "CASE", part,
-                                       timeout=1800 if tier == "thorough" else 600)
+                                       timeout=1800 if tier == "thorough" else 900)
                     res["ok"] = True
                     rep.add_mc(cfg, res)
-                    with open(part) as f:
+                    nonempty = os.path.join(wd, "nonempty.ndjson")
+                    with open(part) as f, open(nonempty, "w") as out:
                         for line in f:
-                            c = json.loads(line)
-                            if len(c["reqs"]) >= 1:
-                                agg.write(line)
-            g1.sample_cases(allc, base, NCASES[tier], rng, prop)
-            os.remove(allc)
+                            if len(json.loads(line)["reqs"]) >= 1:
+                                out.write(line)
+                    picked = os.path.join(wd, "picked.ndjson")
+                    g1.sample_cases(nonempty, picked, NCASES[tier] // len(cfgs), rng, f"{prop}-{ci}" if ci else prop)
+                    with open(picked) as f:
+                        for line in f:
+                            agg.write(line)
+                    for x in (part, nonempty, picked):
+                        os.remove(x)
         # variants: registration permutations
         variants = os.path.join(wd, "variants.ndjson")
         cases = {}
